@@ -133,7 +133,9 @@ pub fn check(c: &Case) -> Outcome {
         lmax = lmax.max(inf_norm(&dy));
     }
     // a time argument is only known to an ulp: the state moves by |f|*ulp(t) per ulp of time
-    let tround = 8.0 * lmax * ulp(x0.abs().max(xend.abs()));
+    // (32 ulps: Radau and BDF report xend itself when they stop within their step-size resolution of it, up to 10 eps |x|
+    // = 20 ulps, so the state labelled xend may belong to a time that much earlier -- C03's "xend to rounding")
+    let tround = 32.0 * lmax * ulp(x0.abs().max(xend.abs()));
     let (a, b) = match sol.sol_span() {
         Some(s) => s,
         None => return Outcome::viol(format!("{}: dense_output enabled, {} accepted steps, but sol_span() is None", name, grid.len() - 1)),
